@@ -29,10 +29,12 @@ def load_prop(pid: str):
         raise
 
 
-def run_rules(mod, root: str) -> "tuple[Report, Tree]":
+def run_rules(mod, root: str, tier: str = "quick") -> "tuple[Report, Tree]":
     ctx = Ctx(root)
     rep = Report(mod.ID)
     mod.run(ctx, rep)
+    if tier == "thorough" and hasattr(mod, "run_thorough"):
+        mod.run_thorough(ctx, rep)
     return rep, ctx.tree
 
 
@@ -64,7 +66,7 @@ def main(argv=None) -> int:
         if mod is None:
             print(f"ANALYSIS-ERROR property={pid} no checker is implemented for this property")
             return 2
-        rep, tree = run_rules(mod, root)
+        rep, tree = run_rules(mod, root, tier)
         extra = {}
         if tier == "thorough":
             from . import thorough
@@ -76,6 +78,13 @@ def main(argv=None) -> int:
         traceback.print_exc()
         print(f"ANALYSIS-ERROR property={pid} analyser crashed (see traceback)")
         return 2
+
+    if rep.errors and not rep.failing():
+        for e in rep.errors:
+            print(f"ANALYSIS-ERROR property={pid} {e}")
+        return 2
+    for e in rep.errors:
+        print(f"analysis-note (secondary, a violation was found by the completed rules): {e}")
 
     known = load_known()
     kidx = known_index(known, pid)
